@@ -81,6 +81,8 @@ impl<T> ParSink<T> {
     /// Stores a computation result `element` with a serial id `idx`.
     pub fn push(&self, idx: usize, element: T) {
         let mut data = self.data.lock().expect(panic_msg::MUTEX_LOCK_FAILED);
+        #[cfg(flacenc_verif)]
+        crate::verif::event("sink_push", idx, data.len());
         data.insert(idx, element);
     }
 
@@ -140,6 +142,8 @@ impl ParFrameBuf {
     /// If this returns None, workder thread must immediately stop.
     #[inline]
     pub fn pop_encode_queue(&self) -> Option<usize> {
+        #[cfg(flacenc_verif)]
+        crate::verif::event("w_pop_wait", self.encode_queue.1.len(), 0);
         self.encode_queue
             .1
             .recv()
@@ -149,6 +153,8 @@ impl ParFrameBuf {
     /// Locks `FrameBuf` with the specified id and returns `MutexGuard`.
     #[inline]
     pub fn lock_buffer(&self, bufid: usize) -> std::sync::MutexGuard<'_, NumberedFrameBuf> {
+        #[cfg(flacenc_verif)]
+        crate::verif::event("lock_buffer", bufid, 0);
         self.buffers[bufid]
             .lock()
             .expect(panic_msg::MUTEX_LOCK_FAILED)
@@ -157,6 +163,8 @@ impl ParFrameBuf {
     /// Requests refill for `FrameBuf` with the specified id.
     #[inline]
     pub fn enqueue_refill(&self, bufid: usize) {
+        #[cfg(flacenc_verif)]
+        crate::verif::event("refill_send", bufid, self.refill_queue.0.len());
         self.refill_queue
             .0
             .send(bufid)
@@ -165,6 +173,8 @@ impl ParFrameBuf {
 
     #[inline]
     pub fn recv_refill_request(&self) -> usize {
+        #[cfg(flacenc_verif)]
+        crate::verif::event("refill_wait", self.refill_queue.1.len(), 0);
         self.refill_queue
             .1
             .recv()
@@ -174,6 +184,8 @@ impl ParFrameBuf {
     #[inline]
     pub fn enqueue_encode(&self, bufid: usize) -> bool {
         let starved = self.encode_queue.0.is_empty();
+        #[cfg(flacenc_verif)]
+        crate::verif::event("enc_send", bufid, self.encode_queue.0.len());
         self.encode_queue
             .0
             .send(Some(bufid))
@@ -184,6 +196,8 @@ impl ParFrameBuf {
     #[inline]
     pub fn request_stop(&self, workers: usize) {
         for _i in 0..workers {
+            #[cfg(flacenc_verif)]
+            crate::verif::event("stop_send", _i, self.encode_queue.0.len());
             self.encode_queue
                 .0
                 .send(None)
@@ -212,7 +226,11 @@ impl ParContext {
             let inner = Arc::clone(&inner);
             thread::spawn(move || loop {
                 let data: Vec<u8> = receiver.recv().expect(panic_msg::MPMC_RECV_FAILED);
+                #[cfg(flacenc_verif)]
+                crate::verif::event("h_recv", data.len(), receiver.len());
                 if data.is_empty() {
+                    #[cfg(flacenc_verif)]
+                    crate::verif::event("h_exit", 0, 0);
                     break;
                 }
                 let mut inner = inner.lock().expect(panic_msg::MUTEX_LOCK_FAILED);
@@ -231,6 +249,8 @@ impl ParContext {
     }
 
     fn enqueue_buffer(&self) {
+        #[cfg(flacenc_verif)]
+        crate::verif::event("h_send", self.bytebuf.len(), self.process_queue.0.len());
         self.process_queue
             .0
             .send(self.bytebuf.clone())
@@ -240,6 +260,8 @@ impl ParContext {
     /// Sends stop signal and returns the number of remaining blocks in queue.
     fn request_stop(&self) -> usize {
         let ret = self.process_queue.0.len();
+        #[cfg(flacenc_verif)]
+        crate::verif::event("h_stop_send", ret, 0);
         self.process_queue
             .0
             .send(vec![])
@@ -248,6 +270,8 @@ impl ParContext {
     }
 
     fn finalize(self) -> Context {
+        #[cfg(flacenc_verif)]
+        crate::verif::event("h_join", 0, 0);
         self.thread_handle
             .join()
             .expect(panic_msg::THREAD_JOIN_FAILED);
@@ -298,22 +322,32 @@ fn feed_fixed_block_size<T: Source, C: Fill>(
 
     'feed: loop {
         let bufid = parbuf.recv_refill_request();
+        #[cfg(flacenc_verif)]
+        crate::verif::event("f_refill_got", bufid, frame_count);
         {
             let mut numbuf = parbuf.buffers[bufid]
                 .lock()
                 .expect(panic_msg::MUTEX_LOCK_FAILED);
             let mut framebuf_and_ctx = (&mut numbuf.framebuf, &mut context);
+            #[cfg(flacenc_verif)]
+            crate::verif::event("f_read_begin", bufid, frame_count);
             let read_samples = src.read_samples(block_size, &mut framebuf_and_ctx)?;
             if read_samples == 0 {
+                #[cfg(flacenc_verif)]
+                crate::verif::event("f_eof", frame_count, bufid);
                 break 'feed;
             }
             numbuf.frame_number = Some(frame_count);
+            #[cfg(flacenc_verif)]
+            crate::verif::event("f_numbered", bufid, frame_count);
         }
         frame_count += 1;
         if parbuf.enqueue_encode(bufid) {
             worker_starvation_count += 1;
         }
     }
+    #[cfg(flacenc_verif)]
+    crate::verif::event("f_request_stop", workers, frame_count);
     parbuf.request_stop(workers);
     Ok((
         FeedStats {
@@ -375,6 +409,8 @@ pub fn encode_with_fixed_block_size<T: Source>(
         block_size,
     )?);
     let parsink: Arc<ParSink<Frame>> = Arc::new(ParSink::new());
+    #[cfg(flacenc_verif)]
+    crate::verif::event("m_workers", worker_count, worker_count * constant::par::FRAMEBUF_MULTIPLICITY);
 
     let join_handles: Vec<_> = (0..worker_count)
         .map(|_n| {
@@ -384,6 +420,8 @@ pub fn encode_with_fixed_block_size<T: Source>(
             let config = Arc::clone(&config);
             thread::spawn(move || {
                 while let Some(bufid) = parbuf.pop_encode_queue() {
+                    #[cfg(flacenc_verif)]
+                    crate::verif::event("w_got", bufid, 0);
                     let (frame_number, encode_result) = {
                         let numbuf = &parbuf.lock_buffer(bufid);
                         let frame_number = numbuf.frame_number.expect(panic_msg::FRAMENUM_NOT_SET);
@@ -397,17 +435,23 @@ pub fn encode_with_fixed_block_size<T: Source>(
                             ),
                         )
                     };
+                    #[cfg(flacenc_verif)]
+                    crate::verif::event("w_encoded", frame_number, usize::from(encode_result.is_ok()));
                     encode_result.map_or_else(
                         |e| {
                             unreachable!("{}, err={:?}", panic_msg::ERROR_NOT_EXPECTED, e);
                         },
                         |mut frame| {
+                            #[cfg(flacenc_verif)]
+                            crate::verif::event("w_refill", bufid, frame_number);
                             parbuf.enqueue_refill(bufid);
                             frame.precompute_bitstream();
                             parsink.push(frame_number, frame);
                         },
                     );
                 }
+                #[cfg(flacenc_verif)]
+                crate::verif::event("w_exit", 0, 0);
             })
         })
         .collect();
@@ -435,6 +479,8 @@ pub fn encode_with_fixed_block_size<T: Source>(
     for h in join_handles {
         h.join().expect(panic_msg::THREAD_JOIN_FAILED);
     }
+    #[cfg(flacenc_verif)]
+    crate::verif::event("m_joined", worker_count, 0);
 
     destruct_arc(parsink).finalize(|f: Frame| stream.add_frame(f));
 
